@@ -1013,6 +1013,26 @@ func (d *duration) Apply(key string, value interface{}, ctx *rdf.ParsingContext)
 						),
 						jen.Id("res").Op(":=").Id("re").Dot("FindStringSubmatch").Call(jen.Id("s")),
 						jen.Var().Id("dur").Qual("time", "Duration"),
+						jen.Commentf("add adds n units to dur; a value beyond the range of time.Duration is rejected instead of silently wrapping around."),
+						jen.Id("add").Op(":=").Func().Params(
+							jen.Id("n").Int64(),
+							jen.Id("unit").Qual("time", "Duration"),
+						).Error().Block(
+							jen.If(
+								jen.Id("n").Op(">").Int64().Call(
+									jen.Parens(jen.Qual("math", "MaxInt64").Op("-").Id("dur")).Op("/").Id("unit"),
+								),
+							).Block(
+								jen.Return(
+									jen.Qual("fmt", "Errorf").Call(
+										jen.Lit("%s is beyond the range of xsd:duration values that fit a time.Duration"),
+										jen.Id("s"),
+									),
+								),
+							),
+							jen.Id("dur").Op("+=").Qual("time", "Duration").Call(jen.Id("n")).Op("*").Id("unit"),
+							jen.Return(jen.Nil()),
+						),
 						// Years
 						jen.Id("nYear").Op(":=").Id("res").Index(jen.Lit(1)),
 						jen.If(
@@ -1043,9 +1063,15 @@ func (d *duration) Apply(key string, value interface{}, ctx *rdf.ParsingContext)
 								),
 							),
 							jen.Commentf("Assume 8760 Hours per 365 days, cannot account for leap years in xsd:duration. :("),
-							jen.Id("dur").Op("+=").Qual("time", "Duration").Call(
-								jen.Id("vYear"),
-							).Op("*").Qual("time", "Hour").Op("*").Lit(8760),
+							jen.If(
+								jen.Err().Op(":=").Id("add").Call(jen.Id("vYear"), jen.Qual("time", "Hour").Op("*").Lit(8760)),
+								jen.Err().Op("!=").Nil(),
+							).Block(
+								jen.Return(
+									jen.Lit(0),
+									jen.Err(),
+								),
+							),
 						),
 						// Months
 						jen.Id("nMonth").Op(":=").Id("res").Index(jen.Lit(2)),
@@ -1077,9 +1103,15 @@ func (d *duration) Apply(key string, value interface{}, ctx *rdf.ParsingContext)
 								),
 							),
 							jen.Commentf("Assume 30 days per month, cannot account for months lasting 31, 30, 29, or 28 days in xsd:duration. :("),
-							jen.Id("dur").Op("+=").Qual("time", "Duration").Call(
-								jen.Id("vMonth"),
-							).Op("*").Qual("time", "Hour").Op("*").Lit(720),
+							jen.If(
+								jen.Err().Op(":=").Id("add").Call(jen.Id("vMonth"), jen.Qual("time", "Hour").Op("*").Lit(720)),
+								jen.Err().Op("!=").Nil(),
+							).Block(
+								jen.Return(
+									jen.Lit(0),
+									jen.Err(),
+								),
+							),
 						),
 						// Days
 						jen.Id("nDay").Op(":=").Id("res").Index(jen.Lit(3)),
@@ -1110,9 +1142,15 @@ func (d *duration) Apply(key string, value interface{}, ctx *rdf.ParsingContext)
 									jen.Err(),
 								),
 							),
-							jen.Id("dur").Op("+=").Qual("time", "Duration").Call(
-								jen.Id("vDay"),
-							).Op("*").Qual("time", "Hour").Op("*").Lit(24),
+							jen.If(
+								jen.Err().Op(":=").Id("add").Call(jen.Id("vDay"), jen.Qual("time", "Hour").Op("*").Lit(24)),
+								jen.Err().Op("!=").Nil(),
+							).Block(
+								jen.Return(
+									jen.Lit(0),
+									jen.Err(),
+								),
+							),
 						),
 						// Hours
 						jen.Id("nHour").Op(":=").Id("res").Index(jen.Lit(5)),
@@ -1143,9 +1181,15 @@ func (d *duration) Apply(key string, value interface{}, ctx *rdf.ParsingContext)
 									jen.Err(),
 								),
 							),
-							jen.Id("dur").Op("+=").Qual("time", "Duration").Call(
-								jen.Id("vHour"),
-							).Op("*").Qual("time", "Hour"),
+							jen.If(
+								jen.Err().Op(":=").Id("add").Call(jen.Id("vHour"), jen.Qual("time", "Hour")),
+								jen.Err().Op("!=").Nil(),
+							).Block(
+								jen.Return(
+									jen.Lit(0),
+									jen.Err(),
+								),
+							),
 						),
 						// Minutes
 						jen.Id("nMinute").Op(":=").Id("res").Index(jen.Lit(6)),
@@ -1176,9 +1220,15 @@ func (d *duration) Apply(key string, value interface{}, ctx *rdf.ParsingContext)
 									jen.Err(),
 								),
 							),
-							jen.Id("dur").Op("+=").Qual("time", "Duration").Call(
-								jen.Id("vMinute"),
-							).Op("*").Qual("time", "Minute"),
+							jen.If(
+								jen.Err().Op(":=").Id("add").Call(jen.Id("vMinute"), jen.Qual("time", "Minute")),
+								jen.Err().Op("!=").Nil(),
+							).Block(
+								jen.Return(
+									jen.Lit(0),
+									jen.Err(),
+								),
+							),
 						),
 						// Seconds
 						jen.Id("nSecond").Op(":=").Id("res").Index(jen.Lit(7)),
@@ -1209,9 +1259,15 @@ func (d *duration) Apply(key string, value interface{}, ctx *rdf.ParsingContext)
 									jen.Err(),
 								),
 							),
-							jen.Id("dur").Op("+=").Qual("time", "Duration").Call(
-								jen.Id("vSecond"),
-							).Op("*").Qual("time", "Second"),
+							jen.If(
+								jen.Err().Op(":=").Id("add").Call(jen.Id("vSecond"), jen.Qual("time", "Second")),
+								jen.Err().Op("!=").Nil(),
+							).Block(
+								jen.Return(
+									jen.Lit(0),
+									jen.Err(),
+								),
+							),
 						),
 						jen.If(
 							jen.Id("isNeg"),
